@@ -208,7 +208,9 @@ def _mk_copy(key):
             check(cp.root is cp, 'copy.not_a_root')
             pc.links_ok(cp, sig + '.copy')
             # structure equal to the original sub-tree (docstring re-indentation aside: compare without attributes)
-            check(ast.dump(cp.a) == ast.dump(node) or isinstance(node, (ast.FunctionDef, ast.ClassDef)) or (isinstance(node, ast.If) and csrc.startswith('if'))
+            import re as _re
+            _n = lambda d_: _re.sub(r'ctx=(Store|Del)\(\)', 'ctx=Load()', d_)   # noqa: E731  a copied target is a Load expression on its own
+            check(_n(ast.dump(cp.a)) == _n(ast.dump(node)) or isinstance(node, (ast.FunctionDef, ast.ClassDef)) or (isinstance(node, ast.If) and csrc.startswith('if'))
                   or (isinstance(node, ast.Expr) and isinstance(node.value, ast.Constant) and isinstance(node.value.value, str)),   # documented docstring re-indentation
                   'copy.structure_differs_from_original_subtree', (type(node).__name__, csrc))
             # parses on its own
